@@ -232,9 +232,9 @@ func c02Program(t *rapid.T, ev *evProp, si *scalarImpl) {
 			defer func() {
 				if p := recover(); p != nil {
 					if isRapidPanic(p) {
-					panic(p)
-				}
-				history = append(history, desc+" <- PANIC")
+						panic(p)
+					}
+					history = append(history, desc+" <- PANIC")
 					if fail(op, "%s panicked: %v", op, p) {
 						for i := range regs {
 							regs[i] = si.New().SetBytes(bigToBytes(model[i], si.Len, si.LE))
